@@ -34,6 +34,7 @@ type ParamDecl struct {
 	Name   string // SMT name
 	Source string // Go/contract name
 	Sort   *Sort
+	Def    string // non-empty: the parameter is defined by this term (shaped parameter)
 }
 
 type Script struct {
@@ -49,6 +50,7 @@ type Script struct {
 
 	parseOnce sync.Once
 	parsed    []*sx
+	Structs   map[string][]string
 }
 
 func (s *Script) emit(format string, a ...interface{}) {
@@ -114,18 +116,26 @@ type fctx struct {
 	inLoop    map[*ssa.BasicBlock][]*ssa.BasicBlock // header -> blocks of natural loop
 
 	// results
-	rets       []retInfo
-	inline     bool
-	obPrefix   string
-	counter    *int
-	callOrd    int
-	paramTerms map[string]Term
-	ideal      bool
-	emitSeq    string               // state key of ghost emitted sequence (emit idiom)
-	binds      map[ssa.Value]*Place // closure free-variable bindings
-	parent     *fctx
-	pow2Vals   map[string]bool // real terms known to be exact powers of two
-	constLen   map[string]int  // sequence terms of statically known length
+	rets         []retInfo
+	inline       bool
+	obPrefix     string
+	counter      *int
+	callOrd      int
+	paramTerms   map[string]Term
+	ideal        bool
+	emitSeq      string               // state key of ghost emitted sequence (emit idiom)
+	binds        map[ssa.Value]*Place // closure free-variable bindings
+	parent       *fctx
+	validTerm    *Term
+	rootCon      *Contract
+	ghosts       map[string]Term
+	entryState   *State
+	entryReach   Term
+	unrolled     map[*ssa.BasicBlock]bool
+	unrolling    map[*ssa.BasicBlock]bool
+	exitOverride map[[2]int]Term
+	pow2Vals     map[string]bool // real terms known to be exact powers of two
+	constLen     map[string]int  // sequence terms of statically known length
 }
 
 type retInfo struct {
@@ -365,6 +375,9 @@ func newScript(name string) *Script {
 func (vc *VC) TranslateFunction(fn *ssa.Function, con *Contract) (sc *Script, err error) {
 	dir, _ := vc.dirOf(fn)
 	name := dir + "." + FuncKey(fn)
+	if con.CaseName != "" {
+		name += "#" + con.CaseName
+	}
 	sc = newScript(name)
 	sc.Con = con
 	sc.Splits = con.Splits
@@ -385,19 +398,42 @@ func (vc *VC) TranslateFunction(fn *ssa.Function, con *Contract) (sc *Script, er
 	}()
 	cnt := 0
 	f := vc.newFctx(fn, con, sc, "", &cnt)
+	f.rootCon = con
 	f.ideal = sc.Ideal
 	f.cur = &State{cells: map[string]Term{}}
 	f.curReach = BoolLit(true)
 	// parameters
 	var args []Term
+	ghostTerms := map[string]Term{}
 	for _, p := range fn.Params {
 		s := vc.sortOf(p.Type())
 		nm := "p!" + p.Name()
-		sc.Params = append(sc.Params, ParamDecl{Name: nm, Source: p.Name(), Sort: s})
+		def := ""
+		for _, sh := range con.Shapes {
+			if sh.Param == p.Name() {
+				if s.Kind != KStr {
+					return nil, fmt.Errorf("contract error: shape on non-string parameter %s", p.Name())
+				}
+				var atoms []string
+				for _, g := range sh.Ghosts {
+					gn := "g!" + g
+					sc.Params = append(sc.Params, ParamDecl{Name: gn, Source: g, Sort: SInt})
+					ghostTerms[g] = Term{S: gn, Sort: SInt}
+					atoms = append(atoms, "(a.num "+gn+")")
+				}
+				def = fmt.Sprintf("(str%d %s)", len(sh.Ghosts), strings.Join(atoms, " "))
+			}
+		}
+		sc.Params = append(sc.Params, ParamDecl{Name: nm, Source: p.Name(), Sort: s, Def: def})
 		t := Term{S: nm, Sort: s, Ty: p.Type()}
 		args = append(args, t)
 	}
 	f.bindParams(args)
+	for g, t := range ghostTerms {
+		f.paramTerms[g] = t
+		f.assume(T(SBool, "(in64 %s)", t.S))
+	}
+	f.ghosts = ghostTerms
 	for i, p := range fn.Params {
 		f.assumeTypeInvariant(args[i], p.Type(), true)
 	}
@@ -409,12 +445,23 @@ func (vc *VC) TranslateFunction(fn *ssa.Function, con *Contract) (sc *Script, er
 			return nil, fmt.Errorf("contract error: split variable %s is not a parameter", sp.Var)
 		}
 	}
+	for n, t := range f.ghosts {
+		env.Vars[n] = t
+	}
 	for _, c := range con.Requires {
 		t, e := ToSMT(c.Expr, env)
 		if e != nil {
 			return nil, fmt.Errorf("contract error: %s:%d: %v", c.File, c.Line, e)
 		}
 		f.assume(wantBoolE(t))
+	}
+	if con.Valid != nil {
+		t, e := ToSMT(con.Valid.Expr, env)
+		if e != nil {
+			return nil, fmt.Errorf("contract error: %s:%d: %v", con.Valid.File, con.Valid.Line, e)
+		}
+		vt := f.define("valid", wantBoolE(t))
+		f.validTerm = &vt
 	}
 	// vacuity guard: the precondition must be satisfiable
 	sc.Items = append(sc.Items, Item{Ob: &Obligation{Name: "V/requires-sat", Kind: "V", Goal: "true", ExpectSat: true, Func: name, Desc: "precondition satisfiable"}})
@@ -460,7 +507,7 @@ func (vc *VC) newFctx(fn *ssa.Function, con *Contract, sc *Script, pfx string, c
 		clos: map[ssa.Value]*ssa.MakeClosure{}, ranges: map[ssa.Value]*rangeInfo{},
 		reach: map[*ssa.BasicBlock]Term{}, exit: map[*ssa.BasicBlock]*State{}, loopOrd: map[*ssa.BasicBlock]int{}, backEdges: map[[2]int]bool{},
 		inLoop: map[*ssa.BasicBlock][]*ssa.BasicBlock{}, paramTerms: map[string]Term{}, binds: map[ssa.Value]*Place{},
-		pow2Vals: map[string]bool{}, constLen: map[string]int{}}
+		pow2Vals: map[string]bool{}, constLen: map[string]int{}, unrolled: map[*ssa.BasicBlock]bool{}, unrolling: map[*ssa.BasicBlock]bool{}, exitOverride: map[[2]int]Term{}}
 }
 
 func (f *fctx) bindParams(args []Term) {
@@ -480,7 +527,7 @@ func (f *fctx) assumeTypeInvariant(t Term, ty types.Type, input bool) {
 	case KStr:
 		f.assume(T(SBool, "(str.wf %s)", t.S))
 	case KSeq:
-		f.assume(T(SBool, "(>= (seq.len %s) 0)", t.S))
+		f.assume(T(SBool, "(and (>= (seq.len %s) 0) (<= (seq.len %s) max64))", t.S, t.S))
 		switch t.Sort.Elem.Kind {
 		case KStr:
 			f.assume(T(SBool, "(forall ((q!k Int)) (! (str.wf (select (seq.el %s) q!k)) :pattern ((select (seq.el %s) q!k))))", t.S, t.S))
@@ -511,6 +558,22 @@ func (f *fctx) contractEnv(con *Contract, fn *ssa.Function, args []Term, results
 			vars[p.Name()] = args[i]
 		}
 	}
+	if con == f.rootCon && f.fn == fn {
+		for g, t := range f.ghosts {
+			vars[g] = t
+		}
+	} else {
+		// at a call site the ghosts of a shaped parameter are its parsed fields
+		for _, sh := range con.Shapes {
+			for i, p := range fn.Params {
+				if p.Name() == sh.Param && i < len(args) {
+					for gi, g := range sh.Ghosts {
+						vars[g] = T(SInt, "(a.value (fld %s %d))", args[i].S, gi)
+					}
+				}
+			}
+		}
+	}
 	if results != nil {
 		rs := fn.Signature.Results()
 		for i := 0; i < rs.Len() && i < len(results); i++ {
@@ -527,11 +590,35 @@ func (f *fctx) contractEnv(con *Contract, fn *ssa.Function, args []Term, results
 			return f.fieldIn(s, x, field)
 		}
 	}
-	env := &Env{Vars: vars, FieldOf: mk(st), Defs: f.vc.cs.Defs}
+	sorts := f.vc.typeParamSorts(fn)
+	env := &Env{Vars: vars, FieldOf: mk(st), Defs: f.vc.cs.Defs, Sorts: sorts}
 	if pre != nil {
-		env.Old = &Env{Vars: vars, FieldOf: mk(pre), Defs: f.vc.cs.Defs}
+		env.Old = &Env{Vars: vars, FieldOf: mk(pre), Defs: f.vc.cs.Defs, Sorts: sorts}
 	}
 	return env
+}
+
+// typeParamSorts maps the type parameter names of a generic function (or of
+// the origin of an instance) to sorts.
+func (vc *VC) typeParamSorts(fn *ssa.Function) map[string]*Sort {
+	out := map[string]*Sort{}
+	if fn == nil {
+		return out
+	}
+	org := fn
+	if fn.Origin() != nil {
+		org = fn.Origin()
+	}
+	tps := org.TypeParams()
+	targs := fn.TypeArgs()
+	for i := 0; i < tps.Len(); i++ {
+		if i < len(targs) {
+			out[tps.At(i).Obj().Name()] = vc.sortOf(targs[i])
+		} else {
+			out[tps.At(i).Obj().Name()] = SAny
+		}
+	}
+	return out
 }
 
 func (f *fctx) fieldIn(s *State, x Term, field string) (Term, bool) {
@@ -639,6 +726,9 @@ func (f *fctx) rpo() []*ssa.BasicBlock {
 }
 
 func (f *fctx) edgeCond(p, b *ssa.BasicBlock) Term {
+	if t, ok := f.exitOverride[[2]int{p.Index, b.Index}]; ok {
+		return t
+	}
 	r := f.reach[p]
 	last := p.Instrs[len(p.Instrs)-1]
 	if iff, ok := last.(*ssa.If); ok {
@@ -663,14 +753,28 @@ func (f *fctx) run() {
 		f.fail("recover")
 	}
 	f.analyzeLoops()
-	entryState := f.cur
-	entryReach := f.curReach
-	for _, b := range f.rpo() {
-		f.curBlock = b
+	f.entryState = f.cur
+	f.entryReach = f.curReach
+	f.walk(f.rpo(), nil)
+}
+
+// walk processes blocks in reverse post-order.  within (if non-nil) is the
+// loop currently being unrolled: predecessors outside it are ignored for
+// blocks other than its header.
+func (f *fctx) walk(order []*ssa.BasicBlock, skipHeader *ssa.BasicBlock) {
+	for _, b := range order {
+		if f.unrolled[b] || b == skipHeader {
+			continue
+		}
 		ord, isHeader := f.loopOrd[b]
+		if isHeader && f.con != nil && f.con.Unroll[ord] > 0 {
+			f.unrollLoop(b, ord, f.con.Unroll[ord])
+			continue
+		}
+		f.curBlock = b
 		if b.Index == 0 {
-			f.cur = entryState
-			f.curReach = entryReach
+			f.cur = f.entryState
+			f.curReach = f.entryReach
 		} else {
 			var states []*State
 			var conds []Term
@@ -694,7 +798,6 @@ func (f *fctx) run() {
 			if isHeader {
 				f.loopHeader(b, ord, preds, conds)
 			} else {
-				// phis
 				for _, ins := range b.Instrs {
 					phi, ok := ins.(*ssa.Phi)
 					if !ok {
@@ -704,21 +807,263 @@ func (f *fctx) run() {
 				}
 			}
 		}
-		f.reach[b] = f.curReach
-		for _, ins := range b.Instrs {
-			if _, ok := ins.(*ssa.Phi); ok {
-				continue
-			}
-			f.instr(ins)
+		f.finishBlock(b)
+	}
+}
+
+func (f *fctx) finishBlock(b *ssa.BasicBlock) {
+	f.reach[b] = f.curReach
+	for _, ins := range b.Instrs {
+		if _, ok := ins.(*ssa.Phi); ok {
+			continue
 		}
-		f.exit[b] = f.cur
-		// back edges leaving this block: invariant preservation
+		f.instr(ins)
+	}
+	f.exit[b] = f.cur
+	// back edges leaving this block: invariant preservation (not for unrolled loops)
+	for _, s := range b.Succs {
+		if f.backEdges[[2]int{b.Index, s.Index}] && !f.unrolling[s] {
+			f.checkInvariant(s, b, "I1")
+		}
+	}
+}
+
+// unrollLoop unrolls a loop completely: n body executions, then an unwinding
+// assertion that the loop condition is false.  Only loops that leave through
+// their header (or by return) are supported.
+func (f *fctx) unrollLoop(h *ssa.BasicBlock, ord int, n int) {
+	body := f.inLoop[h]
+	inBody := map[*ssa.BasicBlock]bool{}
+	for _, b := range body {
+		inBody[b] = true
+	}
+	for _, b := range body {
+		if b == h {
+			continue
+		}
 		for _, s := range b.Succs {
-			if f.backEdges[[2]int{b.Index, s.Index}] {
-				f.checkInvariant(s, b, "I1")
+			if !inBody[s] {
+				if _, isRet := s.Instrs[len(s.Instrs)-1].(*ssa.Return); !(isRet && len(s.Preds) == 1) {
+					f.fail("unrolled loop %d leaves through its body (break)", ord)
+				}
 			}
 		}
 	}
+	var bodyOrder []*ssa.BasicBlock
+	for _, b := range f.rpo() {
+		if inBody[b] && b != h {
+			bodyOrder = append(bodyOrder, b)
+		} else if !inBody[b] {
+			// return-only blocks hanging off the body are processed with it
+			for _, p := range b.Preds {
+				if inBody[p] && p != h {
+					bodyOrder = append(bodyOrder, b)
+					break
+				}
+			}
+		}
+	}
+	f.unrolling[h] = true
+	type incoming struct {
+		cond  Term
+		state *State
+		phis  map[*ssa.Phi]Term
+	}
+	// iteration 0: entry edges
+	var inc []incoming
+	for _, p := range h.Preds {
+		if f.backEdges[[2]int{p.Index, h.Index}] {
+			continue
+		}
+		if _, done := f.reach[p]; !done {
+			continue
+		}
+		in := incoming{cond: f.edgeCond(p, h), state: f.exit[p], phis: map[*ssa.Phi]Term{}}
+		for _, ins := range h.Instrs {
+			phi, ok := ins.(*ssa.Phi)
+			if !ok {
+				break
+			}
+			for j, pp := range h.Preds {
+				if pp == p {
+					in.phis[phi] = f.val(phi.Edges[j])
+				}
+			}
+		}
+		inc = append(inc, in)
+	}
+	if len(inc) == 0 {
+		for _, b := range body {
+			f.unrolled[b] = true
+		}
+		return
+	}
+	type exitSnap struct {
+		cond  Term
+		state *State
+		vals  map[ssa.Value]Term
+	}
+	exits := map[*ssa.BasicBlock][]exitSnap{}
+	for k := 0; k <= n; k++ {
+		f.curBlock = h
+		for _, b := range body {
+			delete(f.unrolled, b)
+			for _, sb := range b.Succs {
+				delete(f.exitOverride, [2]int{b.Index, sb.Index})
+			}
+		}
+		for _, b := range bodyOrder {
+			delete(f.unrolled, b)
+		}
+		var conds []Term
+		var states []*State
+		for _, in := range inc {
+			conds = append(conds, in.cond)
+			states = append(states, in.state)
+		}
+		f.curReach = f.define(fmt.Sprintf("reach_u%d", k), Or(conds...))
+		f.cur = f.mergeStates(states, conds)
+		for _, ins := range h.Instrs {
+			phi, ok := ins.(*ssa.Phi)
+			if !ok {
+				break
+			}
+			t := inc[len(inc)-1].phis[phi]
+			for i := len(inc) - 2; i >= 0; i-- {
+				t = Ite(inc[i].cond, inc[i].phis[phi], t)
+			}
+			t.Ty = phi.Type()
+			f.vals[phi] = f.define(fmt.Sprintf("%s_u%d", phi.Name(), k), t)
+			if l, ok := f.constLen[inc[len(inc)-1].phis[phi].S]; ok && len(inc) == 1 {
+				f.constLen[f.vals[phi].S] = l
+			}
+		}
+		// clear reach of body blocks so that stale predecessors are not merged
+		for _, b := range bodyOrder {
+			delete(f.reach, b)
+		}
+		f.finishBlock(h)
+		// exits from the header
+		for _, sblk := range h.Succs {
+			if inBody[sblk] {
+				continue
+			}
+			snap := exitSnap{cond: f.edgeCond(h, sblk), state: f.exit[h], vals: map[ssa.Value]Term{}}
+			for _, ins := range h.Instrs {
+				if v, ok := ins.(ssa.Value); ok {
+					if t, ok := f.vals[v]; ok {
+						snap.vals[v] = t
+					}
+				}
+			}
+			exits[sblk] = append(exits[sblk], snap)
+		}
+		if k == n {
+			// unwinding assertion: the loop does not continue
+			for _, sblk := range h.Succs {
+				if inBody[sblk] {
+					saved := f.curReach
+					f.curReach = BoolLit(true)
+					f.oblige("U", fmt.Sprintf("U/loop%d.unwind%d", ord, n), Not(f.edgeCond(h, sblk)), h.Instrs[len(h.Instrs)-1].Pos(), fmt.Sprintf("loop %d finishes within %d iterations (unwinding assertion)", ord, n))
+					f.curReach = saved
+				}
+			}
+			break
+		}
+		f.walk(bodyOrder, h)
+		// back edges into the header form the incoming edges of the next iteration
+		inc = nil
+		for _, p := range h.Preds {
+			if !f.backEdges[[2]int{p.Index, h.Index}] {
+				continue
+			}
+			if _, done := f.reach[p]; !done {
+				continue
+			}
+			in := incoming{cond: f.edgeCond(p, h), state: f.exit[p], phis: map[*ssa.Phi]Term{}}
+			for _, ins := range h.Instrs {
+				phi, ok := ins.(*ssa.Phi)
+				if !ok {
+					break
+				}
+				for j, pp := range h.Preds {
+					if pp == p {
+						in.phis[phi] = f.val(phi.Edges[j])
+					}
+				}
+			}
+			inc = append(inc, in)
+		}
+		if len(inc) == 0 {
+			break
+		}
+	}
+	// merge the exits: the header's values are those of the iteration that left
+	var allConds []Term
+	var allStates []*State
+	for sblk, snaps := range exits {
+		var conds []Term
+		for _, sn := range snaps {
+			conds = append(conds, sn.cond)
+			allConds = append(allConds, sn.cond)
+			allStates = append(allStates, sn.state)
+		}
+		f.exitOverride[[2]int{h.Index, sblk.Index}] = f.define("exit_u", Or(conds...))
+	}
+	if len(allConds) > 0 {
+		f.exit[h] = f.mergeStates(allStates, allConds)
+		f.reach[h] = f.define("reach_uexit", Or(allConds...))
+		var flat []exitSnap
+		for _, snaps := range exits {
+			flat = append(flat, snaps...)
+		}
+		for _, ins := range h.Instrs {
+			v, ok := ins.(ssa.Value)
+			if !ok {
+				continue
+			}
+			last := flat[len(flat)-1]
+			t, ok := last.vals[v]
+			if !ok || t.Sort.Kind == KTuple || t.Sort.Kind == KFunc {
+				continue
+			}
+			single := true
+			for i := len(flat) - 2; i >= 0; i-- {
+				if pv, ok := flat[i].vals[v]; ok {
+					if pv.S != t.S {
+						single = false
+					}
+					t = Ite(flat[i].cond, pv, t)
+				}
+			}
+			t.Ty = v.Type()
+			nt := f.define(v.Name()+"_ux", t)
+			if single {
+				if l, ok := f.constLen[last.vals[v].S]; ok {
+					f.constLen[nt.S] = l
+				}
+			}
+			f.vals[v] = nt
+		}
+	} else {
+		delete(f.reach, h)
+	}
+	// values defined in the body are iteration-local
+	for _, b := range body {
+		f.unrolled[b] = true
+		if b == h {
+			continue
+		}
+		for _, ins := range b.Instrs {
+			if v, ok := ins.(ssa.Value); ok {
+				delete(f.vals, v)
+			}
+		}
+	}
+	for _, b := range bodyOrder {
+		f.unrolled[b] = true
+	}
+	delete(f.unrolling, h)
 }
 
 func (f *fctx) phi(phi *ssa.Phi, preds []*ssa.BasicBlock, conds []Term) {
@@ -790,19 +1135,20 @@ func (f *fctx) loopHeader(h *ssa.BasicBlock, ord int, preds []*ssa.BasicBlock, c
 		if strings.HasPrefix(k, "iter$") {
 			f.assume(T(SBool, "(>= %s 0)", nv.S))
 		}
+		if strings.HasPrefix(k, "M$") {
+			f.assume(T(SBool, "(>= (map.size %s) 0)", nv.S))
+		}
 		f.cur.cells[k] = nv
 	}
 	// assume invariants
 	env := f.loopEnv(h, nil, f.cur)
-	for _, c := range f.con.invariants(ord) {
+	for _, c := range f.allInvariants(h) {
 		t, err := ToSMT(c.Expr, env)
 		if err != nil {
 			panic(specErr{fmt.Sprintf("%s:%d: %v", c.File, c.Line, err)})
 		}
 		f.assume(wantBoolE(t))
 	}
-	// automatic facts for range loops
-	f.autoInvariants(h, f.cur, true)
 }
 
 func (c *Contract) invariants(ord int) []Clause {
@@ -810,6 +1156,29 @@ func (c *Contract) invariants(ord int) []Clause {
 		return nil
 	}
 	return c.Loops[ord]
+}
+
+var (
+	autoRangeIndexInv, _ = ParseExpr("0 <= $i && $i <= $len")
+	autoRangeMapInv, _   = ParseExpr("0 <= $n && $n <= $size")
+)
+
+// allInvariants adds the invariants every range loop has by construction
+// (they are checked like user invariants, not assumed).
+func (f *fctx) allInvariants(h *ssa.BasicBlock) []Clause {
+	var out []Clause
+	if rangeIndexBound(h) != nil {
+		out = append(out, Clause{Text: "0 <= $i && $i <= $len (automatic: range index within the slice)", Expr: autoRangeIndexInv, Tag: "auto-index"})
+	}
+	for _, ins := range h.Instrs {
+		if nx, ok := ins.(*ssa.Next); ok {
+			if ri, ok := f.ranges[nx.Iter]; ok && ri.isMap {
+				out = append(out, Clause{Text: "0 <= $n && $n <= $size (automatic: iteration count within the map size)", Expr: autoRangeMapInv, Tag: "auto-iter"})
+			}
+		}
+	}
+	out = append(out, f.con.invariants(f.loopOrd[h])...)
+	return out
 }
 
 // loopModifies returns the state keys that may change inside the loop.
@@ -992,7 +1361,13 @@ func (f *fctx) loopEnv(h *ssa.BasicBlock, from *ssa.BasicBlock, st *State) *Env 
 	}
 	// values of named variables reaching the header
 	for name, v := range f.reachingDefs(h) {
-		if t, ok := f.vals[v]; ok {
+		if key, ok := f.mapKey[v]; ok {
+			if t, ok := st.cells[key]; ok {
+				vars[name] = t
+			}
+			continue
+		}
+		if t, ok := f.vals[v]; ok && t.Sort.Kind != KFunc && t.Sort.Kind != KTuple {
 			vars[name] = t
 		}
 	}
@@ -1023,10 +1398,18 @@ func (f *fctx) loopEnv(h *ssa.BasicBlock, from *ssa.BasicBlock, st *State) *Env 
 		vars["$"+phi.Name()] = t
 	}
 	// iteration counters of map ranges
+	funcs := map[string]FuncSym{}
 	for _, ri := range f.ranges {
-		if t, ok := st.cells[ri.iterKey]; ok {
+		if t, ok := st.cells[ri.iterKey]; ok && f.rangeBelongsTo(ri, h) {
 			vars["$n"] = t
-			vars["$key"] = Term{S: ri.ks, Sort: SFunc}
+			vars["$size"] = T(SInt, "(map.size %s)", ri.mapTerm.S)
+			funcs["$key"] = FuncSym{Name: ri.ks, Res: ri.keySort}
+		}
+	}
+	// bound of a rangeindex loop: the value the index is compared with
+	if lenV := rangeIndexBound(h); lenV != nil {
+		if t, ok := f.vals[lenV]; ok {
+			vars["$len"] = t
 		}
 	}
 	if f.emitSeq != "" {
@@ -1044,10 +1427,44 @@ func (f *fctx) loopEnv(h *ssa.BasicBlock, from *ssa.BasicBlock, st *State) *Env 
 			}
 		}
 	}
-	env := &Env{Vars: vars, Defs: f.vc.cs.Defs}
+	sorts := f.vc.typeParamSorts(f.fn)
+	env := &Env{Vars: vars, Defs: f.vc.cs.Defs, Sorts: sorts, Funcs: funcs}
 	env.FieldOf = func(x Term, field string) (Term, bool) { return f.fieldIn(st, x, field) }
-	env.Old = &Env{Vars: vars, Defs: f.vc.cs.Defs, FieldOf: func(x Term, field string) (Term, bool) { return f.fieldIn(f.entry, x, field) }}
+	env.Old = &Env{Vars: vars, Defs: f.vc.cs.Defs, Sorts: sorts, Funcs: funcs, FieldOf: func(x Term, field string) (Term, bool) { return f.fieldIn(f.entry, x, field) }}
 	return env
+}
+
+// rangeBelongsTo: the Next instruction of the iterator sits in header h.
+func (f *fctx) rangeBelongsTo(ri *rangeInfo, h *ssa.BasicBlock) bool {
+	for _, ins := range h.Instrs {
+		if nx, ok := ins.(*ssa.Next); ok {
+			if r, ok := f.ranges[nx.Iter]; ok && r == ri {
+				return true
+			}
+		}
+	}
+	return false
+}
+
+// rangeIndexBound returns the length value a rangeindex loop compares with.
+func rangeIndexBound(h *ssa.BasicBlock) ssa.Value {
+	var phi *ssa.Phi
+	for _, ins := range h.Instrs {
+		if p, ok := ins.(*ssa.Phi); ok && p.Comment == "rangeindex" {
+			phi = p
+		}
+	}
+	if phi == nil {
+		return nil
+	}
+	for _, ins := range h.Instrs {
+		if b, ok := ins.(*ssa.BinOp); ok && b.Op == token.LSS {
+			if add, ok := b.X.(*ssa.BinOp); ok && add.Op == token.ADD && add.X == phi {
+				return b.Y
+			}
+		}
+	}
+	return nil
 }
 
 // cellNames maps state keys of address-taken locals and maps to source names.
@@ -1118,7 +1535,7 @@ func (f *fctx) edgeCondCur(p, b *ssa.BasicBlock) Term {
 
 func (f *fctx) checkInvariantFrom(h, from *ssa.BasicBlock, st *State, cond Term, kind string) {
 	ord := f.loopOrd[h]
-	invs := f.con.invariants(ord)
+	invs := f.allInvariants(h)
 	saveReach, saveCur := f.curReach, f.cur
 	f.curReach = cond
 	f.cur = st
@@ -1135,25 +1552,6 @@ func (f *fctx) checkInvariantFrom(h, from *ssa.BasicBlock, st *State, cond Term,
 		f.oblige(kind, fmt.Sprintf("%s/loop%d.inv%s@b%d", kind, ord, tag, from.Index), wantBoolE(t), h.Instrs[0].Pos(), c.Text)
 	}
 	f.curReach, f.cur = saveReach, saveCur
-}
-
-func (f *fctx) autoInvariants(h *ssa.BasicBlock, st *State, assume bool) {
-	// rangeindex loops: -1 <= idx < len is implied by construction; give the
-	// solver the bound on the phi.
-	for _, ins := range h.Instrs {
-		phi, ok := ins.(*ssa.Phi)
-		if !ok {
-			break
-		}
-		if phi.Comment == "#rangeindex" {
-			f.assume(T(SBool, "(>= %s (- 1))", f.vals[phi].S))
-		}
-	}
-	for _, ri := range f.ranges {
-		if t, ok := st.cells[ri.iterKey]; ok && ri.isMap {
-			f.assume(T(SBool, "(and (<= 0 %s) (<= %s (map.size %s)))", t.S, t.S, ri.mapTerm.S))
-		}
-	}
 }
 
 // ------------------------------------------------------------ values
